@@ -58,7 +58,13 @@ def main():
         return 2
     res = {"evaluated_at_repo_commit": sh("git -C /repo log --format=%h -1")[1].strip(), "checks": {}}
     try:
+        patch = "patch.diff"
         rc, out = sh(f"git apply {sd}/patch.diff", cwd=wt)
+        if rc != 0 and os.path.exists(os.path.join(sd, "patch_rebased.diff")):
+            # a later fix: commit touched the same lines; the same change re-done by hand on the new HEAD
+            patch = "patch_rebased.diff"
+            rc, out = sh(f"git apply {sd}/{patch}", cwd=wt)
+            res["note"] = "patch.diff no longer applies after a later fix commit; evaluated with patch_rebased.diff (the same change re-done on the new HEAD)"
         if rc != 0:
             print("patch does not apply:", out)
             res["patch_applies"] = False
@@ -76,9 +82,9 @@ def main():
             flags += "-tags verif "
         rc_with, out_with = sh(f"go test -vet=off -count=1 {flags}-timeout 10m -run '{runre}' ./{pkgdir}", cwd=wt)
         # without the change
-        sh(f"git apply -R {sd}/patch.diff", cwd=wt)
+        sh(f"git apply -R {sd}/{patch}", cwd=wt)
         rc_wo, out_wo = sh(f"go test -vet=off -count=1 {flags}-timeout 10m -run '{runre}' ./{pkgdir}", cwd=wt)
-        sh(f"git apply {sd}/patch.diff", cwd=wt)
+        sh(f"git apply {sd}/{patch}", cwd=wt)
         os.remove(demo_dst)
         res["demo_fails_with_change"] = rc_with != 0
         res["demo_passes_without"] = rc_wo == 0
@@ -111,6 +117,8 @@ def main():
     dst = os.path.join(ROOT, "seeded", a.name)
     os.makedirs(dst, exist_ok=True)
     shutil.copyfile(os.path.join(sd, "patch.diff"), os.path.join(dst, "patch.diff"))
+    if os.path.exists(os.path.join(sd, "patch_rebased.diff")):
+        shutil.copyfile(os.path.join(sd, "patch_rebased.diff"), os.path.join(dst, "patch_rebased.diff"))
     shutil.copyfile(os.path.join(sd, "demo_test.go"), os.path.join(dst, "demo_test.go"))
     meta_out = {
         "property": prop,
